@@ -1048,6 +1048,7 @@ pub fn session_errors_accumulate() -> Result<(), Fail> {
     pie.resource_state_mut::<Res>().get_global_map_mut().insert(Res(1), 1);
     FAIL_CHECK.with(|f| f.set(false));
     { let mut s = pie.new_session(); s.require(&T(0)); s.require(&T(1)); }
+    clear_logs(&mut pie);
     let mut s = pie.new_session();
     FAIL_CHECK.with(|f| f.set(true));
     if bottom_up_first { let mut b = s.create_bottom_up_build(); b.schedule_tasks_affected_by(&Res(0)); b.update_affected_tasks(); } else { s.require(&T(0)); }
@@ -1056,6 +1057,17 @@ pub fn session_errors_accumulate() -> Result<(), Fail> {
     if after_first == 0 { fail!("C18", "C18.bounded.check_errors_are_reported", "a dependency check failed during the first build of a session ({}), the session reports no error", if bottom_up_first { "bottom-up" } else { "top-down" }); }
     s.require(&T(1));
     let after_second = s.dependency_check_errors().len();
+    drop(s);
+    // C17: every build of the session is bracketed by its own build-start and build-end (the stream of the two builds together)
+    {
+      let ev = &pie.tracker().0.ev;
+      let mut open = 0i32; let mut builds = 0;
+      for e in ev.iter().filter(|e| e.kind == "build") {
+        if e.start { open += 1; builds += 1; if open != 1 { fail!("C17", "C17.bounded.every_completed_build_emits_its_start_and_end", "a build started while another build of the session was open"); } }
+        else { open -= 1; if open != 0 { fail!("C17", "C17.bounded.every_completed_build_emits_its_start_and_end", "a build-end event closes no build: the second build of a session ({} first) has no build-start of its own", if bottom_up_first { "bottom-up" } else { "top-down" }); } }
+      }
+      if builds != 2 || open != 0 { fail!("C17", "C17.bounded.every_completed_build_emits_its_start_and_end", "two builds in one session produced {} build-start events ({} still open)", builds, open); }
+    }
     if after_second < after_first { fail!("C18", "C18.bounded.errors_of_a_session_accumulate_over_its_builds", "the session reported {} dependency-check error(s) after its first build ({}), {} after a second build", after_first, if bottom_up_first { "bottom-up" } else { "top-down" }, after_second); }
   }
   Ok(())
